@@ -159,12 +159,7 @@ impl JobResult {
         if self.kind == "Hang" {
             return self.read_err.is_some() || self.open_err.is_some();
         }
-        // The writer's shutdown() waits for the acknowledgement of the FIN.  When the reading application has
-        // everything (all bytes + end of stream) the scenario closes the connection; a shutdown() that is still
-        // waiting for that last acknowledgement then ends with the application close.  The transfer is complete
-        // all the same (every byte written, read and verified); a shutdown that never returns stays incomplete.
-        let cut_by_own_close = self.wrote == self.size && self.write_err.as_deref().is_some_and(|e| e.starts_with("shutdown:") && e.contains("Application error"));
-        (self.write_done || cut_by_own_close) && self.eof && self.read == self.size && self.bad_at.is_none()
+        self.write_done && self.eof && self.read == self.size && self.bad_at.is_none()
     }
     pub fn to_json(&self) -> Value {
         json!({"kind": self.kind, "sid": self.sid, "size": self.size, "wrote": self.wrote, "write_done": self.write_done,
@@ -714,6 +709,15 @@ pub fn run_with(spec: &Spec, hook: Option<NetHook>) -> Outcome {
             }
         }
         if spec.clean_close {
+            // the server-side writers of the server-to-client jobs have no client task of their own: their
+            // shutdown() (which waits for the acknowledgement of the FIN) must be given the chance to finish
+            // before the client application closes the connection (bounded by the scenario deadline)
+            loop {
+                if sh.lock().unwrap().jobs.iter().all(|j| j.kind != "UniS2C" || j.write_done || j.write_err.is_some() || j.open_err.is_some()) {
+                    break;
+                }
+                tokio::time::sleep(Duration::from_millis(50)).await;
+            }
             // give datagrams / acks a moment, then close
             tokio::time::sleep(Duration::from_millis(200)).await;
             let _ = conn.close("done", 0);
